@@ -329,7 +329,16 @@ func checkSingleDispatcher(r *Report, s *Sem, R string) {
 	clientT := p.Type("Client")
 	n := 0
 	for _, fn := range p.LimeFuncs() {
-		if fn.Parent() != nil || clientT == nil || !typeIs(recvType(fn), clientT) {
+		if fn.Parent() != nil || clientT == nil {
+			continue
+		}
+		allocsClient := false
+		eachInstr(fn, func(in ssa.Instruction) {
+			if al, ok := in.(*ssa.Alloc); ok && typeIs(al.Type(), clientT) {
+				allocsClient = true
+			}
+		})
+		if !typeIs(recvType(fn), clientT) && !allocsClient {
 			continue
 		}
 		spawns := false
@@ -348,6 +357,21 @@ func checkSingleDispatcher(r *Report, s *Sem, R string) {
 			continue
 		}
 		n++
+		if allocsClient {
+			// the constructor spawns the dispatcher itself, once per Client it allocates
+			nGo := 0
+			eachInstr(fn, func(in ssa.Instruction) {
+				if g, ok := in.(*ssa.Go); ok {
+					for _, callee := range p.calleesAt(g) {
+						if callee == a.listenFn || p.reachable(callee)[a.listenFn] {
+							nGo++
+						}
+					}
+				}
+			})
+			r.Check(R, "func "+fnName(fn)+" / the client's dispatcher is started once, by the constructor", p.pos(fn.Pos()), nGo == 1, fmt.Sprintf("%d go statement(s) reaching the dispatch loop in the constructor", nGo))
+			continue
+		}
 		callers := p.callersOf(fn)
 		inCtor := 0
 		for _, c := range callers {
@@ -446,10 +470,10 @@ func c05(r *Report, s *Sem) {
 	if tableF == nil {
 		// resolve by type: the map[string]chan *ResponseCommand field of channel
 		if st, ok := s.channelT.Underlying().(*types.Struct); ok {
-			for i := 0; i < st.NumFields(); i++ {
-				if m, ok := st.Field(i).Type().Underlying().(*types.Map); ok {
+			for _, f := range flatStructFields(p, st) {
+				if m, ok := f.Type().Underlying().(*types.Map); ok {
 					if ch, ok := m.Elem().Underlying().(*types.Chan); ok && typeIs(ch.Elem(), p.Type("ResponseCommand")) {
-						tableF = st.Field(i)
+						tableF = f
 					}
 				}
 			}
@@ -618,7 +642,7 @@ func c05(r *Report, s *Sem) {
 				}
 				return false
 			}
-			exits := walkFrom(reqFn, insert.in, walkOpts{deferBarrier: isDelDefer, barrier: func(in ssa.Instruction) bool {
+			exits := walkFrom(reqFn, insert.in, walkOpts{deferBarrier: isDelDefer, cutEdge: contradicts(insert.in.Block()), barrier: func(in ssa.Instruction) bool {
 				if ci, ok := in.(ssa.CallInstruction); ok {
 					if _, isDefer := in.(*ssa.Defer); !isDefer {
 						if b, ok := ci.Common().Value.(*ssa.Builtin); ok && b.Name() == "delete" {
@@ -770,6 +794,10 @@ func c05(r *Report, s *Sem) {
 	for _, rl := range returnLeaves(handoff, 0) {
 		c, isC := rl.v.(*ssa.Const)
 		if !isC {
+			// the found flag of the lookup itself
+			if e2, ok := stripConv(rl.v).(*ssa.Extract); ok && e2.Tuple == ssa.Value(lookup.in.(*ssa.Lookup)) && e2.Index == 1 {
+				continue
+			}
 			missFalse = false
 			continue
 		}
